@@ -32,6 +32,35 @@ Theorem C16_guard_nonvacuous :
 Proof. exact (conj ct_demo_ok (conj demo_hooked (conj eq_refl v_demo_ok))). Qed.
 Print Assumptions C16_guard_nonvacuous.
 
+(* The same at the level of the two entry points and for ANY prior state of the converter, for tables
+   all of whose classes are reached by the registration walk from the root class (executable guard
+   reaches_all; what is not proved is that `reach` always is the full reachability closure). *)
+Theorem C16_api_encode_decode_partial :
+  forall b64dec b64enc dt_parse date_parse int_of_str float_of_str str_of_json ct,
+    (forall b, b64dec (b64enc b) = Some b) -> ct_ok ct ->
+    forall c v st, reaches_all ct (TData c) = true ->
+      inst_ok dt_parse date_parse ct (TData c) v ->
+      exists j st', unstructure_to_dict b64enc ct st v = (st', Returned j) /\
+        snd (structure_from_dict b64dec dt_parse date_parse int_of_str float_of_str str_of_json ct st' (TData c) j)
+        = Returned v.
+Proof. exact api_encode_decode_partial. Qed.
+Print Assumptions C16_api_encode_decode_partial.
+
+(* History independence of decoding: under the same guard the outcome of structure_from_dict does
+   not depend on what was registered / structured before (any two prior states, any document,
+   conforming or not, any codecs). *)
+Theorem C16_history_free_partial :
+  forall b64dec dt_parse date_parse int_of_str float_of_str str_of_json ct T,
+    reaches_all ct T = true -> forall st1 st2 j,
+    snd (structure_from_dict b64dec dt_parse date_parse int_of_str float_of_str str_of_json ct st1 T j) =
+    snd (structure_from_dict b64dec dt_parse date_parse int_of_str float_of_str str_of_json ct st2 T j).
+Proof. exact history_free_partial. Qed.
+Print Assumptions C16_history_free_partial.
+
+Theorem C16_reach_guard_nonvacuous : reaches_all ct_demo (TData 0) = true.
+Proof. vm_compute. reflexivity. Qed.
+Print Assumptions C16_reach_guard_nonvacuous.
+
 (* Whatever the history, the type and the document: structure_from_dict returns or raises ValueError. *)
 Theorem C16_errors :
   forall b64dec dt_parse date_parse int_of_str float_of_str str_of_json ct st T j,
